@@ -334,7 +334,10 @@ POST_SCHEMA = dict(params=['answers_arg'], ensures=["same(result, ufn('CANON', s
 SUPER_CALL = dict(params=['expect_arg', 'input_arg'],
                   ensures=["has_attr(self, 'config', 'inferring_answers', 'log_created')", "same(self.log_created, False)", "same(self.config, old(self.config))", "same(self.config['answers'], old(self.config['answers']))",
                            "same(self.inferring_answers, old(self.inferring_answers))"],
-                  exsures={"*": ["has_attr(self, 'config', 'inferring_answers', 'log_created')", "same(self.log_created, False)", "same(self.config, old(self.config))",
+                  exsures={"*": ["has_attr(self, 'config', 'inferring_answers', 'log_created')",
+                                 # a text input passes ensure_text_inputs, after which the flag is cleared before anything else can raise;
+                                 # a non-text input is rejected at once, leaving the flag as it was
+                                 "same(self.log_created, False) if is_str(input_arg) else same(self.log_created, old(self.log_created))", "same(self.config, old(self.config))",
                                  "same(self.config['answers'], old(self.config['answers']))", "same(self.inferring_answers, old(self.inferring_answers))"]},
                   modifies=["self", "self.debuglog if has_attr(self, 'debuglog') else nothing"],
                   note="AbstractGrader.__call__ (contract drafted above): clears log_created, never touches config['answers'] / inferring_answers, may raise")
